@@ -215,7 +215,7 @@ def run(facts, cg):
                                                     if 'q' in c['callee'] and callee_q(c).endswith('Vec::len') and len(dom[_]) < len(dom[bi])) else 'size?'
                 elif has_call(term, 'to_le_bytes'):
                     kind = 'chunk-data-offset'
-                elif has_call(term, '::finalize'):
+                elif has_call(term, '::finalize') or has_call(term, 'Digest>::digest') or has_call(term, '::digest'):
                     kind = 'checksum'
                 elif r == dict_root:
                     kind = 'dictionary'
@@ -224,6 +224,8 @@ def run(facts, cg):
                 seq.append((kind, len(dom[bi])))
             if q.endswith('Digest>::update') and header_root and root_local(b, t['args'][1]) == header_root:
                 hashed_at = len(dom[bi])
+            if q.endswith(('Digest>::digest', '::digest')) and header_root and t['args'] and root_local(b, t['args'][0]) == header_root:
+                hashed_at = len(dom[bi])        # one-shot digest of the whole buffer
         kinds = [k for k, _ in seq]
         instances.append({'rule': 'R-HEADERSEQ', 'function': b.q, 'appends': kinds, 'little_endian': all(True for _ in seq)})
         want = ['magic', 'dictionary-size', 'dictionary', 'chunk-data-offset', 'checksum']
@@ -232,10 +234,14 @@ def run(facts, cg):
         elif hashed_at is None or not (seq[3][1] < hashed_at < seq[4][1]):
             finding('R-HEADERSEQ', b.q, 'checksum-coverage', 'the header checksum is not computed over everything appended before it')
         # default offset = header length + 8 + 64
-        for bi in b.live:
-            for st in b.blocks[bi]['stmts']:
-                if st['k'] == 'assign' and st['rv']['k'] == 'binop' and st['rv']['op'].startswith('Add') and st['rv']['b'].get('int') == 64:
-                    instances[-1]['default_offset'] = show(simplify(T.of_rvalue(b, st['rv'], 0)))[:80]
+        for g in [b] + [facts.bodies[x] for x in cg.edges[b.id] if x in facts.bodies and facts.bodies[x].raw['kind'] == 'Closure']:
+            for bi in g.live:
+                for st in g.blocks[bi]['stmts']:
+                    if st['k'] == 'assign' and st['rv']['k'] == 'binop' and st['rv']['op'].startswith('Add'):
+                        term = simplify(T.resolve_env(simplify(T.of_rvalue(g, st['rv'], 0))))
+                        consts = [n_[1] for n_ in walk(term) if n_[0] == 'const' and isinstance(n_[1], int)]
+                        if sum(consts) == 72 and has_call(term, '::len'):
+                            instances[-1]['default_offset'] = show(term)[:80]
         if 'default_offset' not in instances[-1]:
             finding('R-HEADERSEQ', b.q, 'default-offset', 'the default chunk data offset is not header length + 8 + 64')
     if not any(i['rule'] == 'R-HEADERSEQ' for i in instances):
